@@ -22,4 +22,9 @@ C31_Coalesces(quiet, window, eps) == quiet + eps >= window
 \* has been waiting for its signal with no other strobe since (0 if nothing is
 \* owed, or the coalescer was terminated).
 C31_NoLoss(owedFor, window, slack) == owedFor <= window + slack
+
+\* "... unless the coalescer was terminated FIRST": a signal that was emitted
+\* before termination stays obtainable - terminating never removes anything from
+\* the delivery buffer (before/after = signals buffered before and after it).
+C31_TerminateKeepsBuffered(before, after) == after >= before
 ====
